@@ -1,8 +1,135 @@
-/- Driver ops for C16 (none yet). -/
+/- Driver ops for C16: the metric models on inputs sent as IEEE-754 bit patterns (labels as Nat arrays).
+
+`metric`  evaluates `Xrfmv.Metrics.<name>`:
+  * mse, mae, brier          exactly at core `Rat` (every finite float is a dyadic rational) -> `num`/`den`,
+                             and the same definition at `Float` -> `f`
+  * accuracy, f1, auc        exact `Rat` (`num`/`den`), scores compared exactly
+  * rmse, logloss            at `Float` -> `f` (rmse also returns the exact mse as `num`/`den`)
+  Rejected with `bad-op: ...` exactly where the real code raises: unknown metric name, a missing required
+  quantity (table `Gen.Metrics.required`), empty / ragged / mismatching shapes, non-finite entries, labels
+  outside `0..K-1` where the implementation indexes with them, AUC with a class absent or (multi-class)
+  rows that do not sum to one.
+`tables`  returns the regenerated `Gen.Metrics` tables. -/
 import Xrfmv.Drv.Common
+import Xrfmv.Model.Metrics
+
+open Lean Xrfmv.Drv
 
 namespace Xrfmv.Drv.C16
+open Xrfmv.Metrics
 
-def ops : List (String × Handler) := []
+/-- `Nat → Float` for the `.mean()` denominators of the scalar-generic definitions run at `Float`. -/
+instance : NatCast Float := ⟨Float.ofNat⟩
+
+/-- exact value of a finite double given by its bit pattern -/
+def bitsToRat (n : Nat) : Except String Rat := do
+  let sign : Nat := n / 2 ^ 63 % 2
+  let e : Nat := n / 2 ^ 52 % 2048
+  let m : Nat := n % 2 ^ 52
+  if e == 2047 then throw "bad-op: non-finite entry"
+  let mag : Rat :=
+    if e == 0 then mkRat (m : Int) (2 ^ 1074)
+    else if e ≥ 1075 then (((m + 2 ^ 52) * 2 ^ (e - 1075) : Nat) : Rat)
+    else mkRat ((m + 2 ^ 52 : Nat) : Int) (2 ^ (1075 - e))
+  pure (if sign == 1 then -mag else mag)
+
+def ratToFloat (q : Rat) : Float := Float.ofInt q.num / Float.ofNat q.den
+
+def getBitMat (j : Json) (k : String) : Except String (List (List Nat)) := do
+  let a ← j.getObjValAs? (Array (Array Nat)) k
+  pure (a.toList.map Array.toList)
+
+def toRatMat (m : List (List Nat)) : Except String (List (List Rat)) := m.mapM (fun r => r.mapM bitsToRat)
+def toFloatMat (m : List (List Nat)) : List (List Float) := m.map (fun r => r.map bitsToFloat)
+
+/-- number of columns of a non-empty rectangular matrix with at least one column -/
+def cols (m : List (List Nat)) : Except String Nat :=
+  match m with
+  | [] => throw "bad-op: empty array"
+  | r :: rs =>
+    if r.length == 0 then throw "bad-op: no columns"
+    else if rs.all (fun r' => r'.length == r.length) then pure r.length
+    else throw "bad-op: ragged rows"
+
+def ratJson (q : Rat) (extra : List (String × Json) := []) : Json :=
+  Json.mkObj ([("num", toJson q.num), ("den", toJson q.den), ("f", fJson (ratToFloat q))] ++ extra)
+
+def hasKey (j : Json) (k : String) : Bool :=
+  match j.getObjVal? k with
+  | .ok _ => true
+  | .error _ => false
+
+/-- `np.allclose(1, s)` with numpy's defaults: `|1 - s| ≤ 1e-8 + 1e-5 |s|` (on the exact row sum) -/
+def sumsToOne (r : List Rat) : Bool :=
+  let s := sumL r
+  let d := if 1 - s < 0 then s - 1 else 1 - s
+  let a := if s < 0 then -s else s
+  d ≤ mkRat 1 100000000 + mkRat 1 100000 * a
+
+def opMetric : Handler := fun j => do
+  let name ← j.getObjValAs? String "name"
+  let some req := requiredQuantities name | throw s!"bad-op: unknown metric {name}"
+  for q in req do
+    if !hasKey j q then throw s!"bad-op: missing quantity {q}"
+  if name == "mse" || name == "rmse" || name == "mae" then
+    let yb ← getBitMat j "y_true_reg"
+    let pb ← getBitMat j "y_pred"
+    let ky ← cols yb
+    let kp ← cols pb
+    if ky != kp || yb.length != pb.length then throw "bad-op: shape mismatch"
+    let Y ← toRatMat yb
+    let P ← toRatMat pb
+    let Yf := toFloatMat yb
+    let Pf := toFloatMat pb
+    if name == "mse" then
+      return ratJson (mse Y P) [("ff", fJson (mse Yf Pf))]
+    else if name == "mae" then
+      return ratJson (mae Y P) [("ff", fJson (mae Yf Pf))]
+    else
+      let m := mse Y P
+      return Json.mkObj [("num", toJson m.num), ("den", toJson m.den), ("f", fJson (rmse Yf Pf)),
+        ("fexact", fJson (Float.sqrt (ratToFloat m)))]
+  else
+    let y ← j.getObjValAs? (Array Nat) "y_true_class"
+    let y := y.toList
+    let pb ← getBitMat j "y_pred_proba"
+    let K ← cols pb
+    if y.length != pb.length then throw "bad-op: shape mismatch"
+    let P ← toRatMat pb
+    let Pf := toFloatMat pb
+    let inRange := y.all (fun c => c < K)
+    if name == "accuracy" then
+      return ratJson (accuracy y P)
+    else if name == "f1" then
+      return ratJson (f1 y P)
+    else if name == "brier" then
+      if !inRange then throw "bad-op: label outside 0..K-1"
+      return ratJson (brier y P) [("ff", fJson (brier y Pf))]
+    else if name == "logloss" then
+      if !inRange then throw "bad-op: label outside 0..K-1"
+      if P.any (fun r => r.any (fun p => p < 0 || 1 < p)) then throw "bad-op: probability outside [0,1]"
+      return Json.mkObj [("f", fJson (logloss y Pf))]
+    else if name == "auc" then
+      if !inRange then throw "bad-op: label outside 0..K-1"
+      if K == 1 then throw "bad-op: one column"
+      if !(List.range K).all (fun c => y.contains c) then throw "bad-op: class absent"
+      if K != 2 && !P.all sumsToOne then throw "bad-op: rows do not sum to one"
+      return ratJson (auc y P)
+    else
+      throw s!"bad-op: no model for metric {name}"
+
+def strListJson (l : List String) : Json := toJson l.toArray
+
+def opTables : Handler := fun _ => do
+  pure <| Json.mkObj [
+    ("flags", Json.mkObj (Xrfmv.Gen.Metrics.flags.map fun (n, b) => (n, toJson b))),
+    ("required", Json.mkObj (Xrfmv.Gen.Metrics.required.map fun (n, l) => (n, strListJson l))),
+    ("taskTypes", Json.mkObj (Xrfmv.Gen.Metrics.taskTypes.map fun (n, l) => (n, strListJson l))),
+    ("classes", Json.mkObj (Xrfmv.Gen.Metrics.classes.map fun (c, n) => (c, toJson n))),
+    ("builtin", strListJson builtin),
+    ("shouldMaximize", Json.mkObj (builtin.map fun n =>
+      (n, match shouldMaximize n with | some b => toJson b | none => Json.null)))]
+
+def ops : List (String × Handler) := [("metric", opMetric), ("tables", opTables)]
 
 end Xrfmv.Drv.C16
